@@ -23,13 +23,16 @@ func NewGroupMutex() *GroupMutex {
 
 func (gm *GroupMutex) LockMutexForGroup(group string) {
 	mutex := gm.acquireWithRefcountIncrease(group)
+	simYield("lock", group)
 	mutex.Lock()
+	simYield("locked", group)
 }
 
 func (gm *GroupMutex) ReleaseMutex(group string) {
 	mutex := gm.acquireWithRefcountDecrease(group)
 	if mutex != nil {
 		mutex.Unlock()
+		simYield("unlocked", group)
 	}
 }
 
